@@ -6,6 +6,7 @@ import FFS.Driver.Abi
 import FFS.Driver.AbiCodec
 import FFS.Driver.AbiEntry
 import FFS.Driver.Eip712
+import FFS.Driver.Ffi
 open Lean FFS FFS.Driver
 
 def dispatch (op : String) (j : Json) : Json :=
@@ -38,6 +39,8 @@ def dispatch (op : String) (j : Json) : Json :=
   | "eip712.encode" => opEip712Encode j
   | "eip712.spec" => opEip712Spec j
   | "eip712.doc" => opEip712Doc j
+  | "ffi.toABI" => opFfiToABI j
+  | "ffi.roundtrip" => opFfiRoundtrip j
   | _ => Json.mkObj [("bad", "op")]
 
 partial def loop (hin : IO.FS.Stream) (hout : IO.FS.Stream) : IO Unit := do
